@@ -181,6 +181,10 @@ func DiffKey(a, b []KV) string {
 func Tags(e error) []string {
 	var tags []string
 	for _, b := range errors.GetContextTags(e) {
+		if len(b.Get()) == 0 {
+			// a layer whose context had no tag left carries no tag
+			continue
+		}
 		for _, t := range b.Get() {
 			tags = append(tags, t.Key()+"="+t.ValueStr())
 		}
